@@ -228,10 +228,16 @@ def build(I, sort, hint):
             if isinstance(spec, Returns):
                 cnt = [0]
 
-                def fn2(I2, a, kw, _s=spec.sort, _k=k, _c=cnt):
+                calls = []
+
+                def fn2(I2, a, kw, _s=spec.sort, _k=k, _c=cnt, _calls=calls):
                     _c[0] += 1
-                    return build(I2, _s, f'{hint}_{_k}{_c[0]}')
+                    v = build(I2, _s, f'{hint}_{_k}{_c[0]}')
+                    from .contract import snapshot
+                    _calls.append(snapshot(v))
+                    return v
                 funcs[k] = E.EnvFunc(k, fn2)
+                funcs[k].calls = calls
                 continue
             argk, retk, lo, hi = spec
             uf = z3.Function(I.p.fresh_name(f'{hint}_{k}'), *[sort_of(a) for a in argk], sort_of(retk))
